@@ -5,6 +5,9 @@ retry structure   parseToken_eq_attempts, attempts_isErr_comm, jwt_attempts_comm
                   parseToken_accepts_only_fully_verified, parseToken_accepted_set_independent_of_order,
                   parseToken_follows_calls, calls_parse_only_the_two_secrets,
                   signature_only_fallback_accepts_expired (witness)
+concurrency       Conc.stepPc_good, Conc.step_inv, Conc.run_inv, Conc.init_inv,
+                  Conc.concurrent_outcome_is_the_attempts_in_some_order, Conc.concurrent_acceptance_independent_of_schedule,
+                  Conc.concurrent_jwt_outcome_is_sequential
 -/
 import GoZero.C18.PropsR5
 namespace GoZero.C18
@@ -135,6 +138,146 @@ theorem parseToken_follows_calls {C : Type} (verify : String → Parsed C) (h : 
     cases h1 : (verify secret).isErr <;> cases h2 : (verify prev).isErr <;>
     simp [hp, hc, h1, h2] <;> (try (intro s hs; subst hs; simp [h1, h2]))
   all_goals (first | (cases hv : verify secret <;> simp_all [Parsed.isErr]) | skip)
+
+/-! ## concurrency: for EVERY schedule the history only decides the order of the attempts, never the outcome -/
+
+namespace Conc
+
+/-- the outcome of a request is the two attempts in one of the two orders -/
+def Outcome {C : Type} (req : Req C) (r : Parsed C) : Prop :=
+  r = attempts req.verify req.secret req.prev ∨ r = attempts req.verify req.prev req.secret
+
+/-- what the invariant says about a thread: once it carries a result, that result is an `Outcome` -/
+def Good {C : Type} (req : Req C) : Pc C → Prop
+  | .incrReset _ r => Outcome req r
+  | .incrLoad _ r => Outcome req r
+  | .incrWrite _ r _ => Outcome req r
+  | .done r => Outcome req r
+  | _ => True
+
+/-- one step keeps a thread good — whatever counter values it READ (they may be stale, torn by a reset, or lost updates) -/
+theorem stepPc_good {C : Type} (req : Req C) (expired : Bool) (cs : List (String × Nat)) (pc : Pc C)
+    (h : Good req pc) : Good req (stepPc req expired cs pc).2 := by
+  cases pc with
+  | loadCur => trivial
+  | loadPrev c => trivial
+  | parse c p =>
+    unfold stepPc
+    have e1 : (req.verify req.secret).isErr = true → req.verify req.secret = .err := by
+      intro h
+      cases hv : req.verify req.secret with
+      | err => rfl
+      | tok v c => rw [hv] at h; simp [Parsed.isErr] at h
+    have e2 : (req.verify req.prev).isErr = true → req.verify req.prev = .err := by
+      intro h
+      cases hv : req.verify req.prev with
+      | err => rfl
+      | tok v c => rw [hv] at h; simp [Parsed.isErr] at h
+    by_cases hc : c > p <;> simp only [hc, if_true, if_false] <;>
+      cases h1 : (req.verify req.secret).isErr <;> cases h2 : (req.verify req.prev).isErr <;>
+      simp [Good, Outcome, attempts, h1, h2] <;> (try simp [e1 h1, e2 h2])
+  | incrReset s r => exact h
+  | incrLoad s r => exact h
+  | incrWrite s r present => exact h
+  | done r => exact h
+
+/-- the invariant: every thread is good -/
+def Inv {C : Type} (reqs : List (Req C)) (st : St C) : Prop :=
+  ∀ (t : Nat) (req : Req C) (pc : Pc C), reqs[t]? = some req → st.pcs[t]? = some pc → Good req pc
+
+theorem step_inv {C : Type} (reqs : List (Req C)) (st : St C) (t : Nat) (expired : Bool) (h : Inv reqs st) :
+    Inv reqs (step reqs st t expired) := by
+  unfold step
+  cases hr : reqs[t]? with
+  | none => simpa [hr] using h
+  | some req =>
+    cases hp : st.pcs[t]? with
+    | none => simpa [hr, hp] using h
+    | some pc =>
+      simp only []
+      intro t' req' pc' hr' hp'
+      by_cases ht : t' = t
+      · subst ht
+        have hlt : t' < st.pcs.length := by
+          rcases Nat.lt_or_ge t' st.pcs.length with hlt | hge
+          · exact hlt
+          · rw [List.getElem?_eq_none hge] at hp; exact absurd hp (by simp)
+        rw [hr] at hr'
+        have e : req = req' := Option.some.inj hr'
+        subst e
+        simp only [List.getElem?_set_self hlt] at hp'
+        have e2 := Option.some.inj hp'
+        rw [← e2]
+        exact stepPc_good req expired st.counts pc (h t' req pc hr hp)
+      · have hne : t ≠ t' := fun e => ht e.symm
+        simp only [List.getElem?_set_ne hne] at hp'
+        exact h t' req' pc' hr' hp'
+
+theorem run_inv {C : Type} (reqs : List (Req C)) (sched : List (Nat × Bool)) (st : St C) (h : Inv reqs st) :
+    Inv reqs (run reqs st sched) := by
+  induction sched generalizing st with
+  | nil => exact h
+  | cons te rest ih => exact ih _ (step_inv reqs st te.1 te.2 h)
+
+theorem init_inv {C : Type} (reqs : List (Req C)) (n : Nat) (counts : List (String × Nat)) : Inv reqs (init n counts) := by
+  intro t req pc _ hp
+  unfold init at hp
+  simp only [List.getElem?_replicate] at hp
+  by_cases hlt : t < n
+  · simp [hlt] at hp; subst hp; trivial
+  · simp [hlt] at hp
+
+/-- FOR EVERY SCHEDULE of any number of concurrent requests on one `TokenParser` — any interleaving of their accesses to
+the shared history, any initial counters, any reset happening in between, lost updates included — the result of each
+request is the two attempts (full verifications) in one of the two orders: the history decides the ORDER, nothing else -/
+theorem concurrent_outcome_is_the_attempts_in_some_order {C : Type} (reqs : List (Req C)) (n : Nat)
+    (counts : List (String × Nat)) (sched : List (Nat × Bool)) (t : Nat) (req : Req C) (r : Parsed C)
+    (hreq : reqs[t]? = some req) (hdone : (run reqs (init n counts) sched).pcs[t]? = some (.done r)) :
+    Outcome req r :=
+  run_inv reqs sched _ (init_inv reqs n counts) t req _ hreq hdone
+
+/-- … so whether a request is ACCEPTED does not depend on the schedule: it is accepted iff one of the two full
+verifications accepts it -/
+theorem concurrent_acceptance_independent_of_schedule {C : Type} (reqs : List (Req C)) (n : Nat)
+    (counts : List (String × Nat)) (sched : List (Nat × Bool)) (t : Nat) (req : Req C) (r : Parsed C)
+    (hreq : reqs[t]? = some req) (hdone : (run reqs (init n counts) sched).pcs[t]? = some (.done r)) :
+    r.isErr = ((req.verify req.secret).isErr && (req.verify req.prev).isErr) := by
+  rcases concurrent_outcome_is_the_attempts_in_some_order reqs n counts sched t req r hreq hdone with h | h
+  · rw [h, attempts_isErr_iff]
+  · rw [h, attempts_isErr_iff, Bool.and_comm]
+
+/-- … and for golang-jwt as go-zero calls it the whole RESULT is the sequential one: what a request gets under any
+schedule is what `ParseToken` returns for it on a parser of its own with ANY history at ANY clock reading — hence (by
+`parseToken_accepts_only_fully_verified`) fully verified -/
+theorem concurrent_jwt_outcome_is_sequential {V : Type} (reqs : List (Req (List (String × V)))) (n : Nat)
+    (counts : List (String × Nat)) (sched : List (Nat × Bool)) (t : Nat) (f : TokenFacts V) (now : Int)
+    (secret prev : String) (r : Parsed (List (String × V))) (hp : prev.length > 0)
+    (hreq : reqs[t]? = some { verify := jwtVerify f now, secret := secret, prev := prev })
+    (hdone : (run reqs (init n counts) sched).pcs[t]? = some (.done r)) (h : Hist) (clock : Int) :
+    r = (parseToken (jwtVerify f now) h secret prev clock).2 := by
+  have ho := concurrent_outcome_is_the_attempts_in_some_order reqs n counts sched t _ r hreq hdone
+  rw [parseToken_eq_attempts _ h secret prev clock hp]
+  unfold firstSecond
+  unfold Outcome at ho
+  simp only at ho
+  by_cases hc : h.count secret > h.count prev <;> simp only [hc, if_true, if_false]
+  · rcases ho with ho | ho
+    · exact ho
+    · rw [ho]; exact jwt_attempts_comm f now prev secret
+  · rcases ho with ho | ho
+    · rw [ho]; exact jwt_attempts_comm f now secret prev
+    · exact ho
+
+private def exReqs : List (Req Unit) :=
+  [{ verify := fun s => if s = "cur" then .tok true none else .err, secret := "cur", prev := "old" },
+   { verify := fun s => if s = "old" then .tok true none else .err, secret := "cur", prev := "old" }]
+
+/-- two requests; the second overtakes the first between its two loads and resets the map: both still get their outcome
+(and the first one's increment, read before the reset, lands in the new map) -/
+example : (run exReqs (init 2 [("cur", 3)]) [(0, false), (1, false), (1, false), (1, false), (1, true), (1, false), (1, false),
+      (0, false), (0, false), (0, false), (0, false), (0, false)]).pcs = [.done (.tok true none), .done (.tok true none)] := by decide
+
+end Conc
 
 /-! ### witness: what goes wrong when the second attempt is NOT the full verification (seeded C18-8) -/
 
